@@ -13,17 +13,24 @@
      Delete reports not-found exactly for absent     C04_delete_err_iff_absent
      ... and otherwise removes only that key         C04_delete_removes_only, C04_delete_removes_only_traverse
      Size = number of present keys                   REFUTED on the code as it is: C04_size_is_cardinal_refuted;
-                                                     exact law C04_size_exact_partial, and
+                                                     exact law C04_size_exact_partial (in observable terms:
+                                                     C04_size_exact_observable_partial — Size = present keys
+                                                     minus the ErrorNotFound answers returned so far), and
                                                      C04_size_is_cardinal_partial on the histories that
                                                      never delete an absent key
-     Traverse: each present key once, current        C04_traverse_sorted_complete
-       value, comparator order
+     Traverse: each present key once, current        C04_traverse_sorted_complete (the in-order list), and
+       value, comparator order                       C04_traverse_channel_delivers / _no_deadlock /
+                                                     _terminates: the goroutine + channel hand exactly that
+                                                     list, in order, to the callback on every schedule
      all together, as a refinement                   C04_refines_map_refuted / C04_refines_map_partial /
                                                      C04_refines_map_no_absent_delete_partial
      search-tree invariant                           C04_bst_invariant, C04_step_preserves_bst
-     no nil dereference                              C04_never_panics *)
+     no nil dereference                              C04_never_panics
 
-From Gogu Require Import Base C04_Model C04_Proofs.
+   The theorems named _refuted are about the code AS SHIPPED (the Size defect is
+   pinned by the package's Example and stays); there is no repaired variant. *)
+
+From Gogu Require Import Base C04_Model C04_Proofs C04_ProofsChan.
 From Coq Require Import Sorted.
 Local Open Scope Z_scope.
 
@@ -183,6 +190,30 @@ Theorem C04_size_exact_partial :
 Proof. intros K V comp keqb Hs Hk. exact (size_cardinal_exact comp keqb Hs Hk). Qed.
 Print Assumptions C04_size_exact_partial.
 
+(* the count in that law is observable: it is the number of ErrorNotFound
+   answers the Delete calls of the history returned *)
+Theorem C04_notfound_deletes_counted :
+  forall (K V : Type) (comp keqb : K -> K -> bool), STO comp -> decides_eq keqb ->
+  forall ops : list (@op K V),
+  absent_deletes keqb ops = length (filter is_notfound (outs comp ops)).
+Proof. intros K V comp keqb Hs Hk. exact (absent_deletes_count comp keqb Hs Hk). Qed.
+Print Assumptions C04_notfound_deletes_counted.
+
+(* so: Size = number of present keys - number of Deletes that answered ErrorNotFound.
+   (This is the deviation, and the only one, that tools/matchers.d/c04.py attributes
+   to the known finding.) *)
+Theorem C04_size_exact_observable_partial :
+  forall (K V : Type) (comp keqb : K -> K -> bool), STO comp -> decides_eq keqb ->
+  forall (ops : list (@op K V)) (ks : list K),
+  NoDup ks -> (forall k, In k ks <-> latest keqb k ops <> None) ->
+  size (state_after comp ops) =
+  Z.of_nat (length ks) - Z.of_nat (length (filter is_notfound (outs comp ops))).
+Proof.
+  intros K V comp keqb Hs Hk ops ks H1 H2.
+  rewrite <- (absent_deletes_count comp keqb Hs Hk ops). exact (size_cardinal_exact comp keqb Hs Hk ops ks H1 H2).
+Qed.
+Print Assumptions C04_size_exact_observable_partial.
+
 (* hence the clause holds on every history that never deletes an absent key *)
 Theorem C04_size_is_cardinal_partial :
   forall (K V : Type) (comp keqb : K -> K -> bool), STO comp -> decides_eq keqb ->
@@ -235,6 +266,56 @@ Theorem C04_refines_map_no_absent_delete_partial :
 Proof. intros K V comp keqb Hs Hk. exact (refines_map_no_absent_delete comp keqb Hs Hk). Qed.
 Print Assumptions C04_refines_map_no_absent_delete_partial.
 
+(* ---------- Traverse's goroutine and channel ----------
+
+   [step _ Traverse] answers [traverse (root b)], the in-order list.  The code
+   does not build that list: a goroutine walks the tree under the read lock and
+   sends each item over a channel to the range loop that calls fn
+   (bstree.go:183-197).  [tstep cap] (C04_Model.v) is the small-step model of
+   that protocol for a channel of capacity cap (0 in the code); [tsteps] is any
+   schedule.  For EVERY capacity, EVERY list of items — in particular
+   items = traverse (root b) — and EVERY schedule: *)
+
+(* the calls fn has received so far are a prefix of the in-order list (nothing
+   lost, duplicated or reordered), and once Traverse has returned they are
+   exactly that list *)
+Theorem C04_traverse_channel_delivers :
+  forall (A : Type) (cap : nat) (items : list A) (s : tstate A),
+  tsteps cap (tinit items) s ->
+  (exists rest, items = got s ++ rest) /\ (fin s = true -> got s = items).
+Proof.
+  intros A cap items s H. split; [exact (got_prefix cap items s H) | exact (got_all cap items s H)].
+Qed.
+Print Assumptions C04_traverse_channel_delivers.
+
+(* no deadlock: until Traverse has returned one of the two threads can move *)
+Theorem C04_traverse_channel_no_deadlock :
+  forall (A : Type) (cap : nat) (items : list A) (s : tstate A),
+  tsteps cap (tinit items) s -> fin s = false -> exists s', tstep cap s s'.
+Proof. intros A cap items. exact (progress cap items). Qed.
+Print Assumptions C04_traverse_channel_no_deadlock.
+
+(* termination: every step consumes the measure, which starts at 2 * length items + 2 *)
+Theorem C04_traverse_channel_terminates :
+  forall (A : Type) (cap : nat) (items : list A),
+  (forall s s' : tstate A, tstep cap s s' -> (tmeasure s' < tmeasure s)%nat) /\
+  (forall s, tsteps cap (tinit items) s -> (tmeasure s <= 2 * length items + 2)%nat).
+Proof.
+  intros A cap items. split; [exact (step_decreases cap) | exact (steps_bounded cap items)].
+Qed.
+Print Assumptions C04_traverse_channel_terminates.
+
+(* non-vacuity: a complete schedule exists for every list and capacity; and on
+   the code's unbuffered channel nothing is ever parked in the channel *)
+Example traverse_channel_complete_schedule :
+  forall (A : Type) (cap : nat) (items : list A),
+  exists s : tstate A, tsteps cap (tinit items) s /\ fin s = true.
+Proof. intros A cap items. exact (complete_schedule_exists cap items). Qed.
+
+Example traverse_channel_unbuffered :
+  forall (A : Type) (items : list A) (s : tstate A), tsteps 0 (tinit items) s -> buf s = [].
+Proof. intros A items s. exact (unbuffered_buf_empty 0 items s eq_refl). Qed.
+
 (* ---------- non-vacuity: the hypotheses are met by the comparators the
    harness uses, and by a history that exercises the successor splice ---------- *)
 
@@ -257,4 +338,20 @@ Example history_example :
      OTrav [(1, 10); (4, 40); (5, 50); (6, 60)]] /\
   absent_deletes Z.eqb ops = 1%nat /\
   root (state_after Z.ltb ops) = T (T E 1 10 E) 4 40 (T E 5 50 (T E 6 60 E)).
+Proof. vm_compute. repeat split. Qed.
+
+(* a two-child node whose successor is DEEP and has a right subtree of its own:
+   keys 2,0,9,5,7,6 — deleting the root 2 takes 5 (left-most of the right
+   subtree, two levels down) and re-hangs 5's right subtree 7(6) under 9; then
+   the deleted key is upserted again, the successor overwritten and deleted *)
+Example history_example_deep :
+  let ops := [Upsert 2 20; Upsert 0 1; Upsert 9 90; Upsert 5 50; Upsert 7 70; Upsert 6 60;
+              Delete 2; Get 5; Get 2; Upsert 2 21; Upsert 5 51; Delete 5; Delete 5; Get 6; Size; Traverse] in
+  outs Z.ltb ops =
+    [ODone; ODone; ODone; ODone; ODone; ODone;
+     ODel false; OGet (Ok (5, 50)); OGet (Err NotFound); ODone; ODone; ODel false; ODel true;
+     OGet (Ok (6, 60)); OSize 4; OTrav [(0, 1); (2, 21); (6, 60); (7, 70); (9, 90)]] /\
+  root (state_after Z.ltb [Upsert 2 20; Upsert 0 1; Upsert 9 90; Upsert 5 50; Upsert 7 70; Upsert 6 60; Delete 2]) =
+    T (T E 0 1 E) 5 50 (T (T (T E 6 60 E) 7 70 E) 9 90 E) /\
+  length (filter is_notfound (outs Z.ltb ops)) = 1%nat.
 Proof. vm_compute. repeat split. Qed.
